@@ -1131,7 +1131,7 @@ func (e *exec) verify(r0, c0, h0 int) bool {
 		}
 		// exact multiset match by type (at most one request per type per op)
 		if len(got) != len(want) {
-			return e.fail(AspWire, "requests to server %d: got %v, protocol model expects %s", i, got, fmtExp(want))
+			return e.fail(AspWire|AspWatch|AspFallback, "requests to server %d: got %v, protocol model expects %s", i, got, fmtExp(want))
 		}
 		used := make([]bool, len(got))
 		for _, w := range want {
@@ -1148,7 +1148,7 @@ func (e *exec) verify(r0, c0, h0 int) bool {
 				case r.Nonce != w.nonce:
 					return e.fail(AspWire, "request %s carries nonce %q; nonce of the latest response of that type on this stream is %q", r, r.Nonce, w.nonce)
 				case !sameSet(r.Names, w.names):
-					return e.fail(AspWire, "request %s lists %v; currently subscribed names are %v", r, sortedCopy(r.Names), w.names)
+					return e.fail(AspWire|AspWatch|AspFallback, "request %s lists %v; currently subscribed names are %v", r, sortedCopy(r.Names), w.names)
 				case w.nack && (!r.HasErr || r.ErrMsg == ""):
 					return e.fail(AspWire, "rejected response was not NACKed with an error detail: %s", r)
 				case !w.nack && r.HasErr:
@@ -1157,7 +1157,7 @@ func (e *exec) verify(r0, c0, h0 int) bool {
 				break
 			}
 			if !found {
-				return e.fail(AspWire, "requests to server %d: got %v, protocol model expects %s", i, got, fmtExp(want))
+				return e.fail(AspWire|AspWatch|AspFallback, "requests to server %d: got %v, protocol model expects %s", i, got, fmtExp(want))
 			}
 		}
 		// must be on the current stream
